@@ -713,6 +713,8 @@ static void parse_request(const char *path, Request *rq) {
     }
     parse_gc_mode(gcm, gcp, gclo, gchi);
     cfg_gc_mode = sim_cfg.gc_mode;
+    /* the configured schedule is suspended until the plan calls (sim/gc :on) */
+    sim_cfg.gc_mode = GC_DEFAULT;
     memcpy(cfg_p, sim_cfg.p, sizeof cfg_p);
 }
 
